@@ -244,6 +244,8 @@ type FileInput struct {
 	// Stem: the module name that stands where the file names say "a" ("" = a): the same layouts with
 	// module names that contain a dot, a dash, an underscore, or are written in upper case.
 	Stem string `json:"stem,omitempty"`
+	// Links: the files in the search-path directories are symbolic links to files kept elsewhere
+	Links bool `json:"links,omitempty"`
 }
 
 var fileStems = []string{"", "a.b", "a-b", "a_", "A", "a.yang.b"}
@@ -319,8 +321,10 @@ func choose(dirs [][]string, request string) string {
 }
 
 type fileEnv struct {
-	root string
-	dirs []string
+	root   string
+	dirs   []string
+	linked map[string]bool // path -> it is a symbolic link
+	stored int
 }
 
 func newFileEnv() *fileEnv {
@@ -329,7 +333,8 @@ func newFileEnv() *fileEnv {
 		panic(err)
 	}
 	root, _ = filepath.Abs(root)
-	e := &fileEnv{root: root}
+	e := &fileEnv{root: root, linked: map[string]bool{}}
+	os.MkdirAll(filepath.Join(root, "store"), 0o755)
 	for i := 0; i < 3; i++ {
 		d := filepath.Join(root, fmt.Sprintf("d%d", i))
 		os.MkdirAll(d, 0o755)
@@ -348,13 +353,27 @@ func (e *fileEnv) set(in FileInput) {
 		}
 		ents, _ := os.ReadDir(d)
 		for _, en := range ents {
-			if !want[en.Name()] {
-				os.Remove(filepath.Join(d, en.Name()))
+			p := filepath.Join(d, en.Name())
+			if !want[en.Name()] || e.linked[p] != in.Links {
+				os.Remove(p)
+				delete(e.linked, p)
+				continue
 			}
 			delete(want, en.Name())
 		}
 		for fn := range want {
-			os.WriteFile(filepath.Join(d, fn), []byte(fileContent(di, fn, in.Stem)), 0o644)
+			p := filepath.Join(d, fn)
+			if !in.Links {
+				os.WriteFile(p, []byte(fileContent(di, fn, in.Stem)), 0o644)
+				continue
+			}
+			e.stored++
+			target := filepath.Join(e.root, "store", fmt.Sprintf("f%d", e.stored))
+			os.WriteFile(target, []byte(fileContent(di, fn, in.Stem)), 0o644)
+			if err := os.Symlink(target, p); err != nil {
+				panic(err)
+			}
+			e.linked[p] = true
 		}
 	}
 }
@@ -370,25 +389,39 @@ func checkFile(e *fileEnv, in FileInput) *fail {
 		if err := os.Chdir(e.dirs[0]); err != nil {
 			panic(err)
 		}
-		ms := yang.NewModules()
-		ms.AddPath(e.dirs[1], e.dirs[2])
-		err := ms.Read(in.actual(in.Request))
 		want := choose(in.actualDirs(), in.actual(in.Request))
-		got := ""
-		if err == nil {
-			for _, m := range ms.Modules {
-				if m.Description != nil {
-					got = m.Description.Name
+		// the search path given directory by directory, and as the command builds it from a root:
+		// the directories below it that hold YANG files, in walking order
+		for route := 0; route < 2 && f == nil; route++ {
+			ms := yang.NewModules()
+			if route == 0 {
+				ms.AddPath(e.dirs[1], e.dirs[2])
+			} else {
+				ps, perr := yang.PathsWithModules(e.root)
+				if perr != nil {
+					f = &fail{"path-scan-error", "directories", perr.Error(), nil}
+					return
+				}
+				ms.AddPath(ps...)
+			}
+			err := ms.Read(in.actual(in.Request))
+			got := ""
+			if err == nil {
+				for _, m := range ms.Modules {
+					if m.Description != nil {
+						got = m.Description.Name
+					}
 				}
 			}
-		}
-		switch {
-		case want == "" && err == nil:
-			f = &fail{"read-found-a-non-candidate", "error: no candidate file", got, nil}
-		case want != "" && err != nil:
-			f = &fail{"read-missed-the-candidate", want, err.Error(), nil}
-		case want != got:
-			f = &fail{"read-chose-wrong-file", want, got, nil}
+			sfx := []string{"", ":path-from-PathsWithModules"}[route]
+			switch {
+			case want == "" && err == nil:
+				f = &fail{"read-found-a-non-candidate" + sfx, "error: no candidate file", got, nil}
+			case want != "" && err != nil:
+				f = &fail{"read-missed-the-candidate" + sfx, want, err.Error(), nil}
+			case want != got:
+				f = &fail{"read-chose-wrong-file" + sfx, want, got, nil}
+			}
 		}
 	})
 	if pan {
@@ -781,7 +814,7 @@ func run(c *core.Ctx) {
 							stems = fileStems
 						}
 						for _, stem := range stems {
-							in := FileInput{Dirs: dirs, Request: req, Stem: stem}
+							in := FileInput{Dirs: dirs, Request: req, Stem: stem, Links: (m1/16+g+ri)%3 == 0}
 							caseNo, run := c.Begin()
 							if c.Skip(caseNo, run, Input{File: &in}) {
 								continue
